@@ -24,6 +24,9 @@ def inputs(ctx):
         yield "redef-in-occurs", dict(seed=rng.randrange(1 << 30), text=False, opts=dict(redef_in_occurs=True, allow_odo=False))
         yield "occurs-elem-in-union", dict(seed=rng.randrange(1 << 30), text=False, opts=dict(occurs_elem_in_union=True, allow_odo=False))
         yield "odo-in-table", dict(seed=rng.randrange(1 << 30), text=False, opts=dict(odo_in_table=True, allow_redef=False))
+    # an OCCURS DEPENDING ON table inside a redefined item (outside the theorem's family, judged by the specification all the same)
+    for i in range(40 if ctx.tier == "quick" else 600):
+        yield "odo-in-union", dict(seed=rng.randrange(1 << 30), text=False, opts=dict(odo_in_union=True, allow_filler=False))
     # the same data name in two different groups (qualified names in COBOL); anchors are one flat namespace
     for i in range(60 if ctx.tier == "quick" else 900):
         yield "dup-names", dict(seed=rng.randrange(1 << 30), text=False, opts=dict(dup_names=True, allow_odo=False, allow_filler=False))
